@@ -18,6 +18,7 @@ import (
 	"os"
 	"path/filepath"
 	"regexp"
+	"sort"
 	"strings"
 
 	"github.com/DavidGamba/go-getoptions/internal/help"
@@ -368,11 +369,8 @@ func (gopt *GetOpt) Parse(args []string) ([]string, error) {
 		// If the help is called, don't check for required options since the program wont run.
 		if gopt.finalNode.HelpCommandName == "" || !gopt.Called(gopt.finalNode.HelpCommandName) {
 			// Validate required options
-			for _, option := range node.ChildOptions {
-				err := option.CheckRequired()
-				if err != nil {
-					return nil, fmt.Errorf("%w%s", ErrorParsing, err.Error())
-				}
+			if err := checkRequired(node); err != nil {
+				return nil, err
 			}
 		}
 	}
@@ -390,6 +388,22 @@ func (gopt *GetOpt) Parse(args []string) ([]string, error) {
 	return node.ChildText, nil
 }
 
+// checkRequired - Validates the required options of the node in sorted order so that the error reported is always the same one.
+func checkRequired(node *programTree) error {
+	names := []string{}
+	for k := range node.ChildOptions {
+		names = append(names, k)
+	}
+	sort.Strings(names)
+	for _, k := range names {
+		err := node.ChildOptions[k].CheckRequired()
+		if err != nil {
+			return fmt.Errorf("%w%s", ErrorParsing, err.Error())
+		}
+	}
+	return nil
+}
+
 // Dispatch - Handles calling commands and subcommands after the call to Parse.
 func (gopt *GetOpt) Dispatch(ctx context.Context, remaining []string) error {
 	if gopt.finalNode.HelpCommandName != "" && gopt.Called(gopt.finalNode.HelpCommandName) {
@@ -397,11 +411,8 @@ func (gopt *GetOpt) Dispatch(ctx context.Context, remaining []string) error {
 		return ErrorHelpCalled
 	}
 	// Validate required options
-	for _, option := range gopt.finalNode.ChildOptions {
-		err := option.CheckRequired()
-		if err != nil {
-			return fmt.Errorf("%w%s", ErrorParsing, err.Error())
-		}
+	if err := checkRequired(gopt.finalNode); err != nil {
+		return err
 	}
 	if gopt.finalNode.CommandFn != nil {
 		return gopt.finalNode.CommandFn(ctx, &GetOpt{gopt.finalNode, gopt.finalNode}, remaining)
